@@ -113,10 +113,12 @@ class RecAcc:
     """Recording accumulator: observable = fn(coords) -> dict key -> (nconf, ...) array. Logs per-walker values,
     the task it was called from, and (for DMC) the caller's current weight array."""
 
-    def __init__(self, fn, shapes, log):
+    def __init__(self, fn, shapes, log, reuse=False):
         self.fn = fn
         self._shapes = shapes
         self.log = log
+        self.reuse = reuse  # hand back the SAME arrays on every avg() call (a preallocated output buffer): a driver must not write into them
+        self._buf = {}
 
     def __call__(self, configs, wf):
         d = self.fn(configs.configs)
@@ -135,7 +137,13 @@ class RecAcc:
     def avg(self, configs, wf):
         d = self(configs, wf)
         self.log[-1]["how"] = "avg"
-        return {k: np.mean(v, axis=0) for k, v in d.items()}
+        out = {k: np.mean(v, axis=0) for k, v in d.items()}
+        if self.reuse:
+            for k, v in out.items():
+                b = self._buf.setdefault(k, np.zeros(np.shape(v), dtype=np.asarray(v).dtype))
+                b[...] = v
+                out[k] = b
+        return out
 
     def keys(self):
         return set(self._shapes.keys())
